@@ -166,10 +166,11 @@ K_TARGET = 'unknown-variable-named-by-a-computed-assignment-target'
 def unit_origin(u, res):
     """Operator::eval / eval_mut report VariableIdentifierNotFound(n) only for VariableIdentifierRead{n} or for `target op= value` with the
     target string n, and FunctionIdentifierNotFound(n) only for FunctionIdentifier{n}; VariableIdentifierWrite{n} evaluates to the string n"""
-    _, opname, ident, shapes, mutable, ctxkind, timeout_ms, seed = u
+    _, opname, ident, shapes, mutable, ctxkind, timeout_ms, seed = u[:8]
+    fnb = u[8] if len(u) > 8 else 'identity'
     C = ctx()
     pr = checklib.Prover(res, timeout_ms, CVC5_RATE[0], random.Random(zlib.crc32(repr(u).encode()) ^ checklib.env_seed()))
-    cons, outs, h, pre, flag = c11.run_op(C, res, opname, ident, shapes, mutable, ctxkind)
+    cons, outs, h, pre, flag = c11.run_op(C, res, opname, ident, shapes, mutable, ctxkind, fnb)
     name = 'Operator::%s(%s[%s], %s) in %s' % ('eval_mut' if mutable else 'eval', opname, ident, shapes, ctxkind)
     args = None
     for o in outs:
@@ -193,6 +194,10 @@ def unit_origin(u, res):
             elif en == 'FunctionIdentifierNotFound':
                 got = r.fields[0].fields[0]
                 claim = equal_term(got, sstr(ident)) if opname == 'FunctionIdentifier' else z3.BoolVal(False)
+                if fnb == 'notfound_other' and ctxkind == 'hashmap':
+                    # a user function that itself reports another unknown function: with builtins enabled the crate re-reports the failure under the
+                    # node's own identifier (listed); with builtins disabled the user function's own error is passed through (outside the claim)
+                    claim = z3.Or(flag, claim)
         elif opname == 'VariableIdentifierWrite':
             v = r.fields[0]
             claim = equal_term(v.fields[0], sstr(ident)) if isinstance(v, Adt) and v.variant == C.VI('Value', 'String') else z3.BoolVal(False)
@@ -312,14 +317,14 @@ def replay_names(ce):
         progs = [(ce['source'], [(n, tuple(v)) for n, v in ce.get('ctx_vars', [])])]
     else:
         base = [('a', ('Int', 1)), ('s', ('String', 'q'))]
-        progs = [(p, base) for p in ['missing', 'a + missing', 'missing + a', 'nofn(1)', 'a; nofn a', 'x += 1', 'y -= a', 'z &&= true', 'w = missing', '(missing, a)', 'f(missing)',
+        progs = [(p, base) for p in ['fab(1)', 'a + fab(a)', 'missing', 'a + missing', 'missing + a', 'nofn(1)', 'a; nofn a', 'x += 1', 'y -= a', 'z &&= true', 'w = missing', '(missing, a)', 'f(missing)',
                                       'a = nofn(2)', 'len(missing)', 'a *= missing', 'b ||= false', 'c ^= 2', 'd /= 2', 'e %= 2', 't = a; u += t', 'typeof(nofn2 a)', '-missing', '!nob']]
     details = []
     bad = False
     for prof in ('dev', 'release'):
         text = ''
         for i, (p, vs) in enumerate(progs):
-            text += replay.case_text('b%d' % i, 'build', p) + replay.case_text('e%d' % i, 'eval_with_context_mut', p, vars=vs)
+            text += replay.case_text('b%d' % i, 'build', p) + replay.case_text('e%d' % i, 'eval_with_context_mut', p, vars=vs, funcs=[('fab', 'notfound_other')])
         out = replay.run_cases(text, prof)
         for i, (p, vs) in enumerate(progs):
             r = out['e%d' % i].get('result')
@@ -402,6 +407,9 @@ def main():
                         if mutable and ck != 'hashmap':
                             continue
                         units.append(('origin', op, ident, shapes, mutable, ck, timeout_ms, seed))
+    for shapes in [[a] for a in eshapes]:
+        for mutable in (False, True):
+            units.append(('origin', 'FunctionIdentifier', 'f', shapes, mutable, 'hashmap', timeout_ms, seed, 'notfound_other'))
     for op in c11.ASSIGN:
         for tk in TARGET_KINDS:
             units.append(('target', op, tk, timeout_ms, seed))
@@ -419,7 +427,7 @@ def main():
                                 'quantified by the solver (this is the weakest use of the technique among the claimed properties: the shape space is enumerated)',
                     assumptions=['trees need not be parser-reachable (the iterators are public API on any Node)',
                                  'a node result is the unchanged error of its first failing child or the result of Operator::eval[_mut] on its own operator: the C08 inductive step (decided by C08/C11/C13), used here to lift the operator-level origin claim to trees of any depth',
-                                 'user functions do not themselves return *IdentifierNotFound errors naming other identifiers',
+                                 'user functions do not themselves return *IdentifierNotFound errors naming other identifiers; where the crate nevertheless defends against that (with builtins enabled a FunctionIdentifierNotFound from the context is re-reported under the node\'s own identifier) the defence is checked',
                                  'renaming through the mutable iterators and in the context commutes with evaluation because lookups use exactly the stored identifier (origin units; C09 dispatch): not decided as a separate relational query',
                                  'Iterator::filter_map is modelled (lazy adaptor); slice iterators are native models'],
                     bounds=dict(max_nodes=maxn, iterators=10, solver_timeout_ms=timeout_ms))
